@@ -285,6 +285,10 @@ def scan_case():
       'in_axis': st.sampled_from([0, 1]), 'out_axis': st.sampled_from([0, 1]),
       'write': st.lists(st.sampled_from(['BatchStat', 'Count']), max_size=2,
                         unique=True),
+      # broadcast (in_axes=None) array inputs: 0-3 of them, as separate
+      # arguments or as the leaves of one dict argument
+      'bcast': st.sampled_from([0, 0, 1, 2, 3]),
+      'bcast_form': st.sampled_from(['args', 'dict']),
       'seed': st.integers(0, 2**16),
   })
 
@@ -294,7 +298,8 @@ def scan_case():
         rule='StateAxes assignments (Param -> axis 0/1/None i.e. broadcast, the '
         'rank-2 kernel via PathContains also on axis 2, '
         'BatchStat / Count -> axis 0 or Carry) x length 1-4 x reverse x in/'
-        'out axes: nnx.scan final carry, stacked outputs and module state '
+        'out axes x 0-3 broadcast (in_axes=None) array inputs given as '
+        'separate arguments or as one dict: nnx.scan final carry, stacked outputs and module state '
         'equal the Python loop with Carry state threaded, axis state sliced '
         'per step and broadcast state shared; non-trivial = a Carry group is '
         'written and n>=2, or reverse')
@@ -316,6 +321,11 @@ def scan_vs_loop(case, ctx):
   xs = rng.normal(size=(n, d)).astype(np.float32)
   xin = jnp.asarray(xs if case['in_axis'] == 0 else xs.T)
   c0 = rng.normal(size=(d,)).astype(np.float32)
+  nb = case.get('bcast', 0)
+  bs = [rng.normal(size=(d,)).astype(np.float32) for _ in range(nb)]
+  # every broadcast input enters with its own weight (a mix-up shows)
+  bsum = sum(((j + 2.0) * b for j, b in enumerate(bs)),
+             np.zeros((d,), np.float32))
   # reference loop
   carry_vals = {k: before[k] for k in BASE(d) if axes[k] == 'carry'}
   out_slices = {k: [None] * n for k in BASE(d)
@@ -327,7 +337,7 @@ def scan_vs_loop(case, ctx):
     mi = sliced(m, axes, i)
     for k, v in carry_vals.items():
       getattr(mi, k).value = jnp.asarray(v)
-    y = body(mi, jnp.asarray(xs[i]) + c, write)
+    y = body(mi, jnp.asarray(xs[i]) + c, write) + bsum
     c = c * 0.5 + jnp.mean(y)
     ys[i] = np.asarray(y)
     for k in carry_vals:
@@ -341,15 +351,27 @@ def scan_vs_loop(case, ctx):
                (nnx.BatchStat, nnx.Carry if axes['mean'] == 'carry' else 0),
                (Count, nnx.Carry if axes['count'] == 'carry' else 0)]
   sa = nnx.StateAxes(dict(sa_items))
-  def step(mm, cc, x):
+  as_dict = case.get('bcast_form') == 'dict' and nb >= 1
+  def step(mm, cc, x, *extra):
     y = body(mm, x + cc, write)
+    if as_dict:
+      extra = [extra[0][f'k{j}'] for j in range(nb)]
+    for j, b in enumerate(extra):
+      y = y + (j + 2.0) * b
     return cc * 0.5 + jnp.mean(y), y
+  if as_dict:
+    extra_axes = (None,)
+    # (keys inserted in an order that differs from their sorted order)
+    extra_args = ({f'k{j}': jnp.asarray(bs[j]) for j in reversed(range(nb))},)
+  else:
+    extra_axes = (None,) * nb
+    extra_args = tuple(jnp.asarray(b) for b in bs)
   with sut('nnx.scan'):
     f = wrap(nnx.scan, step, case['seed'],
-             in_axes=(sa, nnx.Carry, case['in_axis']),
+             in_axes=(sa, nnx.Carry, case['in_axis']) + extra_axes,
              out_axes=(nnx.Carry, case['out_axis']), length=n,
              reverse=case['reverse'])
-    c_s, y_s = f(m, jnp.asarray(c0), xin)
+    c_s, y_s = f(m, jnp.asarray(c0), xin, *extra_args)
   require(close(c_s, c), lambda: f'final carry {np.asarray(c_s)} vs loop '
           f'{np.asarray(c)} (axes={axes}, reverse={case["reverse"]})')
   require(close(y_s, np.stack(ys, axis=case['out_axis'])), lambda: 'stacked '
@@ -368,7 +390,7 @@ def scan_vs_loop(case, ctx):
   carry_written = any(axes['mean' if w == 'BatchStat' else 'count'] == 'carry'
                       for w in write)
   ctx.note(labels=sorted(f'{k}:{v}' for k, v in axes.items()) + [
-      'rev' if case['reverse'] else 'fwd'],
+      'rev' if case['reverse'] else 'fwd', f'bcast{nb}'],
            nontrivial=(carry_written and n >= 2) or case['reverse'])
 
 
